@@ -378,6 +378,11 @@ class AbstractEval:
         elif isinstance(s, ast.AnnAssign):
             if s.value is not None:
                 self.assign(s.target, self.ev(s.value, env), env)
+        elif isinstance(s, ast.AugAssign) and isinstance(s.target, ast.Name):
+            # x op= e  is  x = x op e  for the values the tables are built over (numbers, strings, tuples)
+            load = ast.copy_location(ast.Name(id=s.target.id, ctx=ast.Load()), s.target)
+            binop = ast.copy_location(ast.BinOp(left=load, op=s.op, right=s.value), s)
+            self.assign(s.target, self.ev(binop, env), env)
         elif isinstance(s, ast.Pass):
             return
         elif isinstance(s, ast.Continue):
